@@ -51,7 +51,18 @@ def select(tier, seed):
     for kind, ncore, nq in (("conv", 60, 220), ("float", 40, 120)):
         u = [k for k in uni if k["kind"] == kind]
         n = nq if tier == "quick" else len(u)
-        out += u[:ncore] + rng.sample(u[ncore:], max(0, min(len(u) - ncore, n - ncore)))
+        chosen = u[:ncore]
+        # stratify: one kernel of every (mode, source type / source width, destination width class, integer-vs-scaled destination, route) group first
+        groups = {}
+        for k in u[ncore:]:
+            d = k["desc"].split()
+            key = (d[0], d[1][:3] if kind == "float" else d[1][2:5], "64" in d[3], "s<" in d[3], d[-1])
+            groups.setdefault(key, []).append(k)
+        for key in sorted(groups):
+            chosen.append(rng.choice(groups[key]))
+        rest = [k for k in u[ncore:] if k not in chosen]
+        chosen += rng.sample(rest, max(0, min(len(rest), n - len(chosen))))
+        out += chosen
     return out
 
 
